@@ -47,6 +47,13 @@ func (its *DatatypeManager) DeliverTransaction(wired iface.WiredDatatype) {
 					its.ctx.L().Infof("deliver transaction after delivering")
 					its.DeliverTransaction(wired)
 				}
+				// the semaphore is shared by all datatypes of the client: the delivery of another datatype that found
+				// it taken gave up and relies on its holder to look again
+				for _, data := range its.dataMap {
+					if data != wired && data.NeedPush() {
+						its.DeliverTransaction(data)
+					}
+				}
 			}()
 			if err := its.sync(wired); err != nil {
 				// TODO: handle in ErrorHandler
